@@ -57,29 +57,38 @@ def verify(src, sid, prop):
 
 
 def run(sid, checks):
+    """Apply the seed in its own scratch worktree (never in /repo) and run the quick checks against it (MC_REPO)."""
     dst = os.path.join(V, "seeded", sid)
     meta = json.load(open(os.path.join(dst, "meta.json")))
     if not checks:
         checks = [meta["property"]]
-    rc, out = sh("git -C /repo status --porcelain")
-    assert out.strip() == "", "repo not clean: " + out
-    rc, out = sh("git -C /repo apply %s/patch.diff" % dst)
-    if rc != 0:
-        print(sid, "patch does not apply:", out[-300:])
-        return
+    wt = "/tmp/wt/run-" + sid
+    sh("git -C /repo worktree remove --force %s" % wt)
+    os.makedirs("/tmp/wt", exist_ok=True)
+    rc, out = sh("git -C /repo worktree add -q %s HEAD" % wt)
+    assert rc == 0, out
     res = meta.setdefault("detection", {})
     try:
+        rc, out = sh("git apply %s/patch.diff" % dst, cwd=wt)
+        if rc != 0:
+            print(sid, "patch does not apply:", out[-300:])
+            meta["applies_to_head"] = False
+            return
+        meta["applies_to_head"] = True
+        env = dict(os.environ, MC_REPO=wt, MC_EVIDENCE_DIR="/tmp/wt/ev-" + sid, MC_REPLAY_DIR="/tmp/wt/rp-" + sid)
         for c in checks:
             t = time.time()
-            rc, out = sh("cd /verif && %s -m mc.run %s --tier quick" % (PY, c), timeout=3000)
-            lines = [l for l in out.splitlines() if l.startswith(("VIOLATION", "HARNESS", "KNOWN"))]
-            res[c] = {"rc": rc, "detected": rc == 1, "wall": round(time.time() - t, 1), "first": (lines[:2] + [l for l in out.splitlines() if l.startswith("  what")][:2])}
+            rc, out = sh("cd /verif && %s -m mc.run %s --tier quick" % (PY, c), env=env, timeout=3000)
+            lines = [l for l in out.splitlines() if l.startswith(("VIOLATION", "HARNESS"))]
+            res[c] = {"rc": rc, "detected": rc == 1, "wall": round(time.time() - t, 1),
+                      "first": (lines[:1] + [l.strip()[:200] for l in out.splitlines() if l.startswith("  what")][:2])}
             print(sid, c, "rc=%d" % rc, "DETECTED" if rc == 1 else ("HARNESS-ERR" if rc == 2 else "missed"), lines[:1])
     finally:
-        sh("git -C /repo checkout -- .")
-        rc, out = sh("git -C /repo status --porcelain")
-        assert out.strip() == "", out
-    json.dump(meta, open(os.path.join(dst, "meta.json"), "w"), indent=1)
+        sh("git -C /repo worktree remove --force %s" % wt)
+        shutil.rmtree(wt, ignore_errors=True)
+        shutil.rmtree("/tmp/wt/ev-" + sid, ignore_errors=True)
+        shutil.rmtree("/tmp/wt/rp-" + sid, ignore_errors=True)
+        json.dump(meta, open(os.path.join(dst, "meta.json"), "w"), indent=1)
 
 
 if __name__ == "__main__":
